@@ -36,10 +36,10 @@ CHECKS = {
  "C10": ("PBT (proptest), stateful: clone / clone_from / == congruence over histories, near-equal and serde-crafted pairs (every field, all 1- and 2-bit seed differences enumerated), Hc128 position clause, public cores",
          "clone == original and identical futures incl. jumps; for pairs built to be (nearly) equal: a == b implies identical continuation and preserved equality; Hc128Rng at different positions of a block must be !=.",
          "Crafted states avoid BlockRng's index/half_used bookkeeping (states no generator can serialize).", "4/C10"),
- "C11": ("PBT (proptest), stateful round-trip: serde snapshot (bincode, JSON) at generated points vs original vs never-serialized twin",
+ "C11": ("PBT (proptest), stateful round-trip: serde snapshot (bincode; JSON through from_str, from_reader and Value) at generated points vs original vs never-serialized twin",
          "Snapshot at every buffer index / half-used state / after jumps; restored, original and twin must agree on a generated continuation that crosses refills; restored == original.",
          "Two serde back-ends (bincode, serde_json).", "4/C11"),
- "C12": ("PBT (proptest), stateful: JitterRng over scripted timers (reading- and measurement-level programs, hostile deltas, long stuck runs, result-targeted pools via the hook) vs a spec-level Jitterentropy 2.1.0 model (values and timer-read counts); libFuzzer target fz_jitter (thorough)",
+ "C12": ("PBT (proptest), stateful: JitterRng over scripted timers (reading- and measurement-level programs, hostile deltas, long stuck runs, result-, relation- and intermediate-stage-targeted pools via the hook) vs a spec-level Jitterentropy 2.1.0 model (values and timer-read counts); libFuzzer target fz_jitter (thorough)",
          "The harness owns the timer: delta programs incl. stuck patterns and hostile deltas x histories of all public calls; value and cumulative read count compared after every call.",
          "Trusts refmodel::jitter (written from the documentation in feedback form; validated against the Python model).", "6/C12"),
  "C13": ("PBT (proptest): constructive 400-probe timers aimed at every decision boundary vs a validity predicate; libFuzzer target fz_timer (thorough)",
@@ -57,7 +57,7 @@ CHECKS = {
  "C17": ("PBT (proptest): differential Debug text between different seeds under the same history, position-keyed over time, serde-crafted states, JitterRng pairs over different API histories / rounds / preset pools + token scan for state/output words",
          "Pairs of generators with different seeds/timers and the same history must print identical {:?}/{:#?} after every operation; no numeric token may equal a state, buffered or recent output word >= 2^20.",
          "The text is not pinned; buffered words observed as upcoming outputs of a clone.", "4/C17"),
- "C18": ("cross-configuration differential: one proptest-generated corpus replayed by vdigest built in {O0,O3} x {checks on,off} x {serde on,off}",
+ "C18": ("cross-configuration differential: one proptest-generated corpus replayed by vdigest built in {O0,O3} x {checks on,off} x {optional features (serde; rand_jitter std+log) on,off}",
          "6900 (thorough 69000) generated cases over all generator types, cores and scripted JitterRng replayed in 4 (8) build configurations; digests must agree line by line; a disagreement is delta-debugged with the two binaries as oracle.",
          "Only x86-64 is buildable here.", "6/C18"),
  "C19": ("PBT (proptest) with a harness-owned scheduler over real OS threads + unsynchronised parallel runs + fresh-process solo and scenario traces (JitterRng through its whole API incl. rejected timers) + enumerated 1-/2-bit seed pairs + same-key constructor pairs, cross-type pairs, nested and barrier-synchronised parallel construction + compiled Send/Sync probe",
